@@ -1,7 +1,8 @@
 (* Model driver for property C06 (area "sources"): the parser model run on the same case
    formats as harness/src/modes/c06.rs.
      (c06 (cmd ...) (argv ...))           -> parse result [+ (present b ...) per level on Ok]
-     (c06pair (cmd A) (cmd B) (argv ...)) -> pair <result A> ;; <result B> *)
+     (c06pair (cmd A) (argv ...))         -> pair <result A> ;; <result B>, B = A without its
+                                             (default ..) / (dif ..) items *)
 open Conv
 open Spec
 open Show
@@ -45,6 +46,14 @@ let run (cmd : Sx.t) (argv : Sx.t) (with_present : bool) : string =
     | _ -> "" in
   shown ^ extra
 
+let rec strip_defaults (x : Sx.t) : Sx.t = match x with
+  | Sx.L l ->
+    Sx.L (Stdlib.List.map strip_defaults
+            (Stdlib.List.filter (fun it -> match it with
+               | Sx.L (Sx.Sym ("default" | "dif") :: _) -> false
+               | _ -> true) l))
+  | other -> other
+
 let () =
   let lines = Sx.read_lines Sys.argv.(1) in
   Stdlib.List.iteri (fun i line ->
@@ -54,7 +63,7 @@ let () =
         match Sx.head sx, Sx.args sx with
         | "c06", [cmd; argv] -> run cmd argv true
         | "parse", [cmd; argv] -> run cmd argv false
-        | "c06pair", [a; b; argv] -> "pair " ^ run a argv false ^ " ;; " ^ run b argv false
+        | "c06pair", [a; argv] -> "pair " ^ run a argv false ^ " ;; " ^ run (strip_defaults a) argv false
         | m, _ -> "unknown-mode " ^ m
       with e -> "driver-error " ^ Printexc.to_string e in
     print_string (string_of_int i); print_char '\t'; print_endline res) lines
